@@ -112,9 +112,15 @@ where
                     }
                 }
                 Ok(Err(msg)) => {
+                    // failures may carry a class "[class=...]": kept apart (at most 8 per class) so that a recorded finding
+                    // can never crowd out a different violation; only unclassified failures stop the run early
+                    let class = if msg.starts_with("[class=") { msg[7..].split(']').next().unwrap_or("").to_string() } else { String::new() };
                     let mut f = failures.lock().unwrap();
-                    f.push((i, json!({"case": case.to_json(), "message": msg})));
-                    if f.len() >= 64 {
+                    let same = f.iter().filter(|(_, v)| v["class"].as_str().unwrap_or("") == class).count();
+                    if class.is_empty() || same < 8 {
+                        f.push((i, json!({"case": case.to_json(), "message": msg, "class": class})));
+                    }
+                    if class.is_empty() && same + 1 >= 64 {
                         stop.store(true, Ordering::Relaxed);
                     }
                 }
@@ -148,7 +154,17 @@ where
         evaluations: evals.load(Ordering::Relaxed),
         nontrivial: nontriv.load(Ordering::Relaxed),
         samples: s.into_iter().take(MAX_SAMPLES).map(|x| x.1).collect(),
-        failures: f.into_iter().take(MAX_FAILURES).map(|x| x.1).collect(),
+        failures: {
+            // the smallest cases of every class
+            let mut out: Vec<Value> = Vec::new();
+            for (_, v) in f.into_iter() {
+                let c = v["class"].as_str().unwrap_or("").to_string();
+                if out.iter().filter(|o| o["class"].as_str().unwrap_or("") == c).count() < MAX_FAILURES {
+                    out.push(v);
+                }
+            }
+            out
+        },
         exhaustive: exhaustive && !stop.load(Ordering::Relaxed),
         wall_s: t0.elapsed().as_secs_f64(),
     }
